@@ -47,6 +47,8 @@ structure Refines {A : Type} (K : Kind A) (S : Kind (List Nat)) (R : A → List 
   indexes : K.indexes = S.indexes
   keys : K.keys = S.keys
   len : K.len = S.len
+  resumeIdx : K.resumeIdx = S.resumeIdx
+  resumeKeys : K.resumeKeys = S.resumeKeys
 
 /-- the op does not take the specification out of its domain (no ragged unlabelled storage is built) -/
 def Op.safe (S : Kind (List Nat)) : Op → Prop
@@ -98,6 +100,7 @@ theorem step_sim {A : Type} {K : Kind A} {S : Kind (List Nat)} {R : A → List N
   case keys => exact ⟨by rw [h.keys], hs⟩
   case dkeys => exact ⟨by rw [h.labelled, h.newtype, h.dims], hs⟩
   case len => exact ⟨by rw [h.len], hs⟩
+  case resume k => exact ⟨by rw [h.dims, h.resumeIdx, h.resumeKeys], hs⟩
   case bad => exact ⟨trivial, hs⟩
 
 theorem go_sim {A : Type} {K : Kind A} {S : Kind (List Nat)} {R : A → List Nat → Prop} (h : Refines K S R) :
@@ -114,7 +117,7 @@ theorem go_sim {A : Type} {K : Kind A} {S : Kind (List Nat)} {R : A → List Nat
 
 theorem staticToks_sim {A : Type} {K : Kind A} {S : Kind (List Nat)} {R : A → List Nat → Prop} (h : Refines K S R)
     (op : Op) : K.staticToks op = S.staticToks op := by
-  cases op <;> simp [Kind.staticToks, h.indexes, h.keys, h.labelled, h.newtype, h.dims]
+  cases op <;> simp [Kind.staticToks, h.indexes, h.keys, h.labelled, h.newtype, h.dims, h.resumeIdx, h.resumeKeys]
 
 /-- every safe program has the same observation trace on the kind and on the flat specification -/
 theorem run_sim {A : Type} {K : Kind A} {S : Kind (List Nat)} {R : A → List Nat → Prop} (h : Refines K S R)
